@@ -295,6 +295,9 @@ def main(argv=None):
         # C08 asks only whether anything panics: the native sweeps and replays ignore results that merely differ from the
         # executable specification (those are the other properties' hits) and keep going past them
         os.environ['SWEEP_PANIC_ONLY'] = '1'
+    if prop in ('C06', 'C17', 'C18'):
+        # relational properties: a panic of the real code takes both sides of the comparison down alike (C08's hit)
+        os.environ['SWEEP_PANIC_NOT_MINE'] = '1'
     if prop == 'C06':
         # C06 is relational (bit-serial path == whole-word path of the real code): its sweeps compare with the real add_word
         os.environ['SWEEP_RELATIONAL'] = '1'
